@@ -334,6 +334,18 @@ def check_config(c):
             _judge(res, cc, basev, dict(e_vld=v * (1 + 1e-9) + 1e-300, nswp=N), seed, True)
             _judge(res, cc, basev, dict(e_vld=v * (1 - 1e-9), nswp=N), seed, True)
         _judge(res, cc, basev, dict(nswp=N), seed, True)
+    # a second criterion that is formally satisfied at the moment of an interruption must not displace the real reason:
+    # with e set, the convergence value of an interrupted half-sweep can be 0 (nothing changed yet)
+    for ethr in (1e-13, 0.5):
+        for k in range(1, K + 1):
+            _judge(res, cc, base, dict(none_at=k, e=ethr, nswp=N), seed, False)
+        for m in sorted(_boundaries(base, cc, N)):
+            _judge(res, cc, base, dict(m=m, e=ethr, nswp=N), seed, False)
+        for sw in range(1, N + 1):
+            _judge(res, cc, base, dict(cb_at=sw, e=ethr, nswp=N), seed, False)
+    if basev is not None and basev.ok:
+        for k in range(1, K + 1, 2):
+            _judge(res, cc, basev, dict(none_at=k, e_vld=0.9, nswp=N), seed, True)
     # conv with the default scale
     if c['cache']:
         _judge(res, cc, base, dict(nswp=N, scale=5), seed, False)
@@ -437,7 +449,7 @@ def _configs(tier, seed):
     if tier == 'quick':
         shapes = [[2, 3], [3, 2, 3], [2, 2, 2, 2], [3, 1, 2], [5, 4, 6]]
         rhos, r0s, N = [1, 2], [1, 2], 2
-        drs = [(0, 0), (1, 1), (0, 2)]
+        drs = [(0, 0), (1, 1), (0, 2), (2, 2), (2, 3)]
     else:
         shapes = [[2, 3], [4, 4], [3, 2, 3], [1, 3, 2], [3, 1, 2], [2, 3, 1], [3, 3, 3],
                   [2, 2, 2, 2], [2, 3, 2, 3], [2, 2, 2, 2, 2]]
